@@ -304,6 +304,8 @@ func c18(c *core.Check) {
 
 	// ---- R2 reference cycles (same decisions as C01.R3 for the SVG instances)
 	c18SubpathStart(c, r1)
+	c18CommandLetters(c, r1)
+	c18OpenAndRadii(c, r1)
 	r2 := c.Rule("R2", "references cannot be followed forever: <use> resolution (by id and by URL) and href inheritance between definitions are cycle-guarded at parse time, and while drawing, the content of a marker, clip path or mask is drawn only after the definition was recorded as being drawn (a reference to a definition in progress is skipped)", 6)
 	if ru := p.Lookup("svg.(*svgContext).resolveUse"); ru == nil {
 		r2.Anchor("svg.(*svgContext).resolveUse")
@@ -723,4 +725,150 @@ func c18SubpathStart(c *core.Check, r *core.Rule) {
 	if n == 0 {
 		r.Anchor("addSeg: stores to pathStartX / pathStartY")
 	}
+}
+
+// c18CommandLetters: which bytes of path data start a command.
+func c18CommandLetters(c *core.Check, r *core.Rule) {
+	p := c.Prog
+	fn := p.Lookup("svg.(*pathParser).parsePath")
+	if fn == nil {
+		r.Anchor("svg.(*pathParser).parsePath")
+		return
+	}
+	body := p.Body(fn)
+	if body == nil {
+		r.Anchor("body of parsePath")
+		return
+	}
+	// the condition of the first if inside the range loop, evaluated for every byte
+	var cond ast.Expr
+	var varName string
+	ast.Inspect(body, func(n ast.Node) bool {
+		rs, ok := n.(*ast.RangeStmt)
+		if !ok || cond != nil {
+			return true
+		}
+		if id, ok := rs.Value.(*ast.Ident); ok {
+			varName = id.Name
+		}
+		for _, st := range rs.Body.List {
+			if ifs, ok := st.(*ast.IfStmt); ok && cond == nil {
+				cond = ifs.Cond
+			}
+		}
+		return true
+	})
+	if cond == nil || varName == "" {
+		r.Anchor("parsePath: the test that recognises a command letter")
+		return
+	}
+	var wrong []string
+	for b := int64(0); b < 256; b++ {
+		got, ok := evalPred(p, "svg", cond, varName, b)
+		if !ok {
+			r.Unknown("parsePath | command letters", p.Pos(cond.Pos()), "the test could not be evaluated")
+			return
+		}
+		letter := (b >= 'a' && b <= 'z') || (b >= 'A' && b <= 'Z')
+		want := letter && b != 'e' && b != 'E'
+		if got != want {
+			wrong = append(wrong, fmt.Sprintf("%q→%v", rune(b), got))
+		}
+	}
+	r.Cond(len(wrong) == 0, "parsePath | command letters", p.Pos(cond.Pos()), "every ASCII letter except the exponent markers e and E", "the test, evaluated for every byte, differs from `a letter other than e/E` on "+strings.Join(wrong, " ")+": a number such as 1E1 is cut at the E")
+}
+
+// c18OpenAndRadii: the sub-path state after drawing commands, and the out-of-range radii of arcs (SVG 1.1 F.6.2).
+func c18OpenAndRadii(c *core.Check, r *core.Rule) {
+	p := c.Prog
+	fn := p.Lookup("svg.(*pathParser).addSeg")
+	if fn != nil {
+		// every drawing helper called by addSeg is followed, before the function returns normally, by inPath = true
+		isOpen := func(in ssa.Instruction) bool {
+			st, ok := in.(*ssa.Store)
+			if !ok {
+				return false
+			}
+			fa, ok := st.Addr.(*ssa.FieldAddr)
+			if !ok || core.FieldName(fa) != "inPath" {
+				return false
+			}
+			k, isK := st.Val.(*ssa.Const)
+			return isK && k.Value != nil && k.Value.String() == "true"
+		}
+		isRet := func(in ssa.Instruction) bool {
+			ret, ok := in.(*ssa.Return)
+			if !ok || len(ret.Results) != 1 {
+				return false
+			}
+			k, isK := ret.Results[0].(*ssa.Const)
+			return isK && k.Value == nil // return nil
+		}
+		n, bad := 0, ""
+		core.Instrs(fn, func(in ssa.Instruction) {
+			call, ok := in.(*ssa.Call)
+			if !ok || call.Call.StaticCallee() == nil {
+				return
+			}
+			switch call.Call.StaticCallee().Name() {
+			case "lineTo", "cubicTo", "quadTo", "addArcFromA":
+				n++
+				if !core.PassBetween(in, isOpen, isRet) {
+					bad = p.Pos(call.Pos())
+				}
+			}
+		})
+		r.Cond(bad == "" && n > 0, "addSeg | drawing commands open the sub-path", p.Pos(fn.Pos()), fmt.Sprintf("%d drawing calls, each followed by inPath = true before the segment is accepted", n), "a drawing command (at "+bad+") can return without marking the sub-path as open: after `… Z L 20,20 … Z` the second closepath emits nothing")
+	}
+	aa := p.Lookup("svg.(*pathParser).addArcFromA")
+	if aa == nil {
+		r.Anchor("svg.(*pathParser).addArcFromA")
+		return
+	}
+	// zero radius: a test of the radii against 0 leads to lineTo and away from addArc
+	var zeroTests []ssa.Value
+	for _, a := range core.CondAtoms(aa) {
+		b, ok := a.(*ssa.BinOp)
+		if !ok || (b.Op != token.EQL && b.Op != token.NEQ) {
+			continue
+		}
+		if f, isF := core.ConstFloat(b.Y); isF && f == 0 {
+			zeroTests = append(zeroTests, a)
+		}
+	}
+	lineBlocks, arcBlocks := map[*ssa.BasicBlock]bool{}, map[*ssa.BasicBlock]bool{}
+	absOnRadii := 0
+	core.Instrs(aa, func(in ssa.Instruction) {
+		call, ok := in.(*ssa.Call)
+		if !ok || call.Call.StaticCallee() == nil {
+			return
+		}
+		switch call.Call.StaticCallee().Name() {
+		case "lineTo":
+			lineBlocks[call.Block()] = true
+		case "addArc":
+			arcBlocks[call.Block()] = true
+		case "Abs", "AbsF", "abs":
+			absOnRadii++
+		}
+	})
+	okZero := false
+	if len(zeroTests) > 0 && len(lineBlocks) > 0 {
+		// scenario: the first radius is zero
+		assign := map[ssa.Value]bool{}
+		for _, a := range zeroTests {
+			assign[a] = a.(*ssa.BinOp).Op == token.EQL
+		}
+		reach := core.ForwardReach(aa.Blocks[0], assign, nil)
+		reachesLine, reachesArc := false, false
+		for b := range lineBlocks {
+			reachesLine = reachesLine || reach[b]
+		}
+		for b := range arcBlocks {
+			reachesArc = reachesArc || reach[b]
+		}
+		okZero = reachesLine && !reachesArc
+	}
+	r.Cond(okZero, "addArcFromA | zero radius is a straight line", p.Pos(aa.Pos()), "with a zero radius lineTo is reached and addArc is not", "no test of the radii against zero leads to a straight line to the end point: `A0,5 0 0 1 30 30` draws nothing and leaves the current point behind")
+	r.Cond(absOnRadii >= 2, "addArcFromA | negative radii", p.Pos(aa.Pos()), "the absolute values of both radii are taken", "the radii are used with their sign: `A-20,20 …` draws another arc than `A20,20 …`")
 }
